@@ -154,6 +154,7 @@ def run_rules(spec, props=("C12",)):
         out = r.out
         arrs = None if full else list(out)
         A.outcomes.add(hsh(mon.hist_of(out, nodes) if full else [a.tolist() for a in arrs]))
+        A.count["rows_checked"] = A.count.get("rows_checked", 0) + 1
         A.states.add(hsh((sorted(T.items()), sorted(Rc.items()))))
         if len(seq) > 1:
             A.nontrivial.add(pre)
@@ -199,7 +200,7 @@ def run_rules(spec, props=("C12",)):
         if "C04" in props:
             a = arrs if arrs is not None else [out.t(), out.S(), out.I(), out.R()]
             if arrs is not None or gapint:
-                for s, m in mon.c04(a, n, tmin, tmax, "SIR", discrete=True, must_die_out=(tmax == INF)):
+                for s, m in mon.c04(a, n, tmin, tmax, "SIR", discrete=True, must_die_out=(tmax == INF), every_step=(arrs is not None)):
                     A.add(V("C04", fn, cls, s, m, pre))
         if "C05" in props:
             if not full:
@@ -229,7 +230,7 @@ def run_rules(spec, props=("C12",)):
             elif len(r2.trace) > 0 and any(k not in tabT for k in r2.ctx["T"]):
                 pass  # array mode asked something full mode did not: compared through the arrays below
             if r2.exc is None:
-                for s, m in mon.c10(out, list(r2.out), G, tmin, ["S", "I", "R"], {("S", "I"), ("I", "R")}):
+                for s, m in mon.c10(out, list(r2.out), G, tmin, ["S", "I", "R"], {("S", "I"), ("I", "R")}, stepwise=True):
                     A.add(V("C10", fn, cls, s, m, pre))
     if runs:
         r = runs[len(runs) // 2]
@@ -394,12 +395,13 @@ def run_prob(spec, props=("C12",)):
             continue    # reported through label()
         arrs = None if full else list(out)
         A.outcomes.add(hsh(label(r)))
+        A.count["rows_checked"] = A.count.get("rows_checked", 0) + 1
         if (len(out.t()) if full else len(arrs[0])) > 1:
             A.nontrivial.add(pre)
         gapint = (tmax == INF) or float(tmax - tmin).is_integer()
         if "C04" in props and (arrs is not None or gapint):
             a = arrs if arrs is not None else ([out.t(), out.S(), out.I()] + ([] if sis else [out.R()]))
-            for s, m in mon.c04(a, n, tmin, tmax, "SIS" if sis else "SIR", discrete=(arrs is not None), must_die_out=(tmax == INF and not sis)):
+            for s, m in mon.c04(a, n, tmin, tmax, "SIS" if sis else "SIR", discrete=True, must_die_out=(tmax == INF and not sis), every_step=(arrs is not None)):
                 A.add(V("C04", fn, cls, s, m, pre))
         if "C05" in props:
             if not full:
